@@ -386,3 +386,89 @@ Proof.
   - intros D. apply (D KRefresh KAccess); [discriminate|discriminate|reflexivity].
   - vm_compute. repeat split; reflexivity.
 Qed.
+
+(* ------------------------------------------------------------------ histories *)
+(* the user a presentation authenticated (None: rejected / ran as nobody) *)
+Definition authenticated (v : Z) (ans : list Z) : option Z :=
+  if v =? 1 then match ans with [1; u; _; _; _] => Some u | _ => None end
+  else if (v =? 41) || (v =? 43) || (v =? 42) || (v =? 44) then match ans with [u] => Some u | _ => None end
+  else if v =? 6 then match ans with [1; u] => Some u | _ => None end
+  else None.
+(* ... and what alone justifies it: the token presented IN THAT STEP, at the clock reading OF THAT STEP *)
+Definition justified (now : Z) (raw : option token) (u : Z) : Prop :=
+  exists t e, raw = Some t /\ proper now KAccess t /\ claim_str (t_sub t) = Some u /\ t_exp t = CNum e /\ now < e.
+
+Lemma present_sound now v raw u : 0 < now -> authenticated v (present now v raw) = Some u -> u <> GUEST -> justified now raw u.
+Proof.
+  intros Hn H Hu. unfold present, authenticated in H.
+  destruct (v =? 1) eqn:E1.
+  - destruct (verify_access now true raw) as [|u' e c m] eqn:E; cbn in H; [discriminate|].
+    inversion H; subst u'. destruct raw as [t|]; [|cbn in E; inversion E; congruence].
+    destruct (access_sound now t u e c m Hn E) as (P & S & X & L). exists t, e. repeat split; try assumption; apply P.
+  - destruct (v =? 41), (v =? 43), (v =? 42), (v =? 44); cbn [orb] in H;
+      try (injection H as H'; exact (login_required_sound now raw u Hn H' Hu)).
+    destruct (v =? 6); [|discriminate].
+    destruct (get_token_info now raw raw) as [u'|] eqn:E; cbn in H; [|discriminate].
+    inversion H; subst u'. destruct (token_info_sound now raw raw u Hn E) as (L & _).
+    exact (login_required_sound now raw u Hn L Hu).
+Qed.
+
+Fixpoint history_sound (toks : list (list Z)) (steps : list Z) : Prop :=
+  match steps with
+  | v :: i :: now :: rest =>
+      (0 < now -> forall u, authenticated v (present now v (tok_at toks i)) = Some u -> u <> GUEST -> justified now (tok_at toks i) u)
+      /\ history_sound toks rest
+  | _ => True
+  end.
+
+Lemma history_sound_all toks steps : history_sound toks steps.
+Proof.
+  assert (A : forall n steps, (length steps <= n)%nat -> history_sound toks steps).
+  { induction n as [|n IH]; intros st L.
+    - destruct st; [exact I|cbn in L; lia].
+    - destruct st as [|v [|i [|now rest]]]; try exact I. cbn [history_sound]. split.
+      + intros Hn u H Hu. exact (present_sound now v _ u Hn H Hu).
+      + apply IH. cbn in L. lia. }
+  exact (A (length steps) steps (le_n _)).
+Qed.
+
+(* what was presented before does not change an answer: the answers after any prefix of whole steps are the answers without it *)
+Lemma history_prefix toks n : forall pre post, length pre = (3 * n)%nat -> history toks (pre ++ post) = history toks pre ++ history toks post.
+Proof.
+  induction n as [|n IH]; intros pre post L.
+  - destruct pre; [reflexivity|cbn in L; lia].
+  - destruct pre as [|v [|i [|now rest]]]; cbn in L; try lia.
+    cbn [app history]. f_equal. apply IH. lia.
+Qed.
+
+(* an answer given at a later clock reading was also the answer at every earlier one: a token never gains validity by time passing (or by having been used) *)
+Lemma access_accepted_earlier now now' raw u e c m : now <= now' ->
+  verify_access now' true raw = VOk u e c m -> verify_access now true raw = VOk u e c m.
+Proof.
+  intros Hle. destruct raw as [t|]; [|cbn; trivial].
+  unfold verify_access, lib_accepts, lib_exp_ok.
+  destruct (is_hmac (t_alg t)), (t_intact t), (key_eqb (t_key t) KAccess), (t_nbf_future t), (t_iat_future t); cbn; try discriminate;
+  destruct (t_exp t) as [|s|n| |]; cbn; try discriminate;
+  destruct (claim_str (t_cli t)), (claim_str (t_sub t)); cbn; try discriminate;
+  repeat match goal with |- context [?a <? ?b] => destruct (Z.ltb_spec a b) end; cbn; try discriminate; try lia; trivial.
+Qed.
+
+Lemma access_rejected_later now now' raw : now <= now' -> verify_access now true raw = VInvalid -> verify_access now' true raw = VInvalid.
+Proof.
+  intros Hle H. destruct (verify_access now' true raw) as [|u e c m] eqn:E; [reflexivity|].
+  rewrite (access_accepted_earlier now now' raw u e c m Hle E) in H. discriminate.
+Qed.
+
+Lemma guest_stays_guest now now' raw : now <= now' -> login_required now raw = GUEST -> login_required now' raw = GUEST.
+Proof.
+  intros Hle H. unfold login_required in *.
+  destruct (verify_access now' true raw) as [|u e c m] eqn:E; [reflexivity|].
+  rewrite (access_accepted_earlier now now' raw u e c m Hle E) in H. exact H.
+Qed.
+
+(* non-vacuity: a history in which a token is used while valid, then presented after its expiry (2000), with another user's token in between *)
+Definition ex_wire_access (user exp : Z) : list Z := [1; 0; 0; 1; 1; user; 2; exp; 1; 1; 0; 0; 0; 0; 0; 0; 0; 0].
+Example ex_history :
+  history [ex_wire_access 3 2000; ex_wire_access 2 9000] [41; 0; 1000; 1; 1; 1500; 41; 0; 1999; 41; 0; 2000; 43; 0; 2001; 42; 1; 2001; 6; 0; 2500]
+  = [[3]; [1; 2; 9000; 1; 0]; [3]; [GUEST]; [GUEST]; [2]; [0]].
+Proof. vm_compute. reflexivity. Qed.
